@@ -145,4 +145,254 @@ theorem updateOne_sound (chars : S → List S) (kr kn : List (Rule S V)) (wf : W
         rw [this]
       · cases ha
 
+/-! ## audit addition: the same result under a weaker, REACHABLE well-formedness
+
+`WF.quirk` demands `nullEnames chars n = n.edges` for EVERY null rule.  With the real `chars`
+(characters of the name) this is false for every null rule written `"edge": "Human"` — and every rule
+list produced by `get_param_rules()` contains such rules (the per-edge `length` rules), so `WF` never
+holds on the rule lists `initialise_from_nested` really passes.  The proof only needs the clause for
+null rules that are NOT key-matched by a rich rule (those are the only ones that reach the
+name-matching loop); `WFr` states exactly that. -/
+
+structure WFr (chars : S → List S) (kr kn : List (Rule S V)) : Prop where
+  key : ∀ r ∈ kr, ∀ n ∈ kn, keyEq r n = true → r.par = n.par ∧ ∀ e, covers r e = covers n e
+  richDisj : ∀ r1 ∈ kr, ∀ r2 ∈ kr, r1.par = r2.par → ∀ e, covers r1 e = true → covers r2 e = true → r1 = r2
+  nullDisj : ∀ n1 ∈ kn, ∀ n2 ∈ kn, n1.par = n2.par → ∀ e, covers n1 e = true → covers n2 e = true → n1 = n2
+  /-- only for the null remainder (`set(nulld) - set(richd)`) -/
+  quirk : ∀ n ∈ kn, (∀ r ∈ kr, keyEq r n = false) → nullEnames chars n = n.edges
+
+theorem WF.toWFr {chars : S → List S} {kr kn : List (Rule S V)} (h : WF chars kr kn) : WFr chars kr kn :=
+  ⟨h.key, h.richDisj, h.nullDisj, fun n hn _ => h.quirk n hn⟩
+
+theorem updateOne_sound_r (chars : S → List S) (kr kn : List (Rule S V)) (wf : WFr chars kr kn)
+    (r : Rule S V) (hr : r ∈ kr) (a : List (Rule S V)) (ha : updateOne chars kr kn r = .ok a)
+    (o : Rule S V) (ho : o ∈ a) (e : S) (hoe : covers o e = true)
+    (n : Rule S V) (hn : n ∈ kn) (hpar : n.par = o.par) (hne : covers n e = true) : o.val = n.val := by
+  unfold updateOne at ha
+  split at ha
+  · rename_i n0 hfind
+    have hk : keyEq r n0 = true := by simpa using List.find?_some hfind
+    have hn0 : n0 ∈ kn := List.mem_of_find?_eq_some hfind
+    cases ha
+    simp only [List.mem_singleton] at ho
+    subst ho
+    obtain ⟨hp, hc⟩ := wf.key r hr n0 hn0 hk
+    have hce : covers r e = true := by simpa [covers] using hoe
+    have : n = n0 := wf.nullDisj n hn n0 hn0 (by rw [hpar]; exact hp) e hne (by rw [← hc e]; exact hce)
+    rw [this]
+  · rename_i hfind
+    have hnokey : ∀ x ∈ kn, keyEq r x = false := by
+      intro x hx
+      have := List.find?_eq_none.mp hfind x hx
+      simpa using this
+    -- when the rich rule covers e, n is not key-matched by ANY rich rule
+    have hrem : covers r e = true → r.par = n.par → ∀ r' ∈ kr, keyEq r' n = false := by
+      intro hre hp r' hr'
+      cases hk' : keyEq r' n with
+      | false => rfl
+      | true =>
+        exfalso
+        obtain ⟨hp', hc'⟩ := wf.key r' hr' n hn hk'
+        have : r' = r := wf.richDisj r' hr' r hr (by rw [hp', hp]) e (by rw [hc' e]; exact hne) hre
+        subst this
+        rw [hnokey n hn] at hk'
+        cases hk'
+    have key_n : ∀ es, r.edges = some es → covers r e = true → r.par = n.par →
+        n ∈ matchesFor chars (kn.filter (fun n => !(kr.any (fun r' => keyEq r' n)))) r := by
+      intro es hes hre hp
+      have hrem' := hrem hre hp
+      unfold matchesFor
+      rw [List.mem_filter]
+      refine ⟨?_, ?_⟩
+      · rw [List.mem_filter]
+        refine ⟨hn, ?_⟩
+        simp only [Bool.not_eq_true', List.any_eq_false]
+        intro r' hr' hk'
+        rw [hrem' r' hr'] at hk'
+        cases hk'
+      · rw [hes]
+        simp only [Bool.and_eq_true, beq_iff_eq]
+        refine ⟨hp.symm, ?_⟩
+        unfold overlaps
+        rw [wf.quirk n hn hrem']
+        cases hne' : n.edges with
+        | none => rfl
+        | some ns =>
+          simp only [List.any_eq_true]
+          refine ⟨e, ?_, ?_⟩
+          · have := hne; rw [covers_some hne'] at this; simpa using this
+          · have := hre; rw [covers_some hes] at this; exact this
+    split at ha
+    · rename_i hnone
+      cases ha
+      unfold extend at ho
+      rw [List.mem_flatMap] at ho
+      obtain ⟨m, hm, ho⟩ := ho
+      rw [List.mem_map] at ho
+      obtain ⟨e', he', rfl⟩ := ho
+      have hee : e = e' := by
+        simp [covers] at hoe
+        exact hoe
+      subst hee
+      unfold matchesFor at hm
+      rw [List.mem_filter] at hm
+      obtain ⟨hm1, hm2⟩ := hm
+      rw [List.mem_filter] at hm1
+      simp only [Bool.and_eq_true, beq_iff_eq] at hm2
+      have hmc : covers m e = true := by
+        cases hme : m.edges with
+        | none => simp [covers, hme]
+        | some es' =>
+          rw [hme] at he'
+          simp at he'
+          rw [covers_some hme]
+          simpa using he'
+      have : n = m := wf.nullDisj n hn m hm1.1 (by rw [hpar]; simp [hm2.1]) e hne hmc
+      rw [this]
+    · rename_i es hes
+      dsimp only at ha
+      split at ha
+      · rename_i hms
+        cases ha
+        simp only [List.mem_singleton] at ho
+        subst ho
+        have := key_n es hes hoe hpar.symm
+        rw [hms] at this
+        cases this
+      · rename_i m hms
+        cases ha
+        simp only [List.mem_singleton] at ho
+        subst ho
+        have hre : covers r e = true := by simpa [covers] using hoe
+        have := key_n es hes hre (by simpa using hpar.symm)
+        rw [hms] at this
+        simp only [List.mem_singleton] at this
+        rw [this]
+      · cases ha
+
+/-! ### soundness of the executable check `wfrB` -/
+
+theorem sameSet_contains {x y : List S} (h : sameSet x y = true) (e : S) : x.contains e = y.contains e := by
+  unfold sameSet at h
+  rw [Bool.and_eq_true, List.all_eq_true, List.all_eq_true] at h
+  obtain ⟨h1, h2⟩ := h
+  cases hx : x.contains e with
+  | true =>
+    have := h1 e (by simpa using hx)
+    exact this.symm
+  | false =>
+    cases hy : y.contains e with
+    | false => rfl
+    | true =>
+      have := h2 e (by simpa using hy)
+      rw [hx] at this
+      cases this
+
+theorem scopeEq_covers {a b : Rule S V} (h : scopeEq a b = true) (e : S) : covers a e = covers b e := by
+  unfold scopeEq at h
+  unfold covers
+  cases ha : a.edges with
+  | none =>
+    cases hb : b.edges with
+    | none => rfl
+    | some y => rw [ha, hb] at h; cases h
+  | some x =>
+    cases hb : b.edges with
+    | none => rw [ha, hb] at h; cases h
+    | some y =>
+      rw [ha, hb] at h
+      exact sameSet_contains h e
+
+theorem disjointScopes_false {a b : Rule S V} {e : S} (ha : covers a e = true) (hb : covers b e = true) :
+    disjointScopes a b = false := by
+  unfold disjointScopes
+  cases hae : a.edges with
+  | none => rfl
+  | some x =>
+    cases hbe : b.edges with
+    | none => rfl
+    | some y =>
+      rw [covers_some hae] at ha
+      rw [covers_some hbe] at hb
+      simp only [List.all_eq_false]
+      exact ⟨e, by simpa using ha, by simpa using hb⟩
+
+theorem pairwiseDisj_spec [DecidableEq V] {l : List (Rule S V)} (h : pairwiseDisj l = true) :
+    ∀ r1 ∈ l, ∀ r2 ∈ l, r1.par = r2.par → ∀ e, covers r1 e = true → covers r2 e = true → r1 = r2 := by
+  intro r1 h1 r2 h2 hp e c1 c2
+  unfold pairwiseDisj at h
+  rw [List.all_eq_true] at h
+  have := h r1 h1
+  rw [List.all_eq_true] at this
+  have := this r2 h2
+  rw [disjointScopes_false c1 c2] at this
+  simp [hp] at this
+  exact this
+
+theorem wfrB_sound [DecidableEq V] {chars : S → List S} {kr kn : List (Rule S V)}
+    (h : wfrB chars kr kn = true) : WFr chars kr kn := by
+  unfold wfrB at h
+  simp only [Bool.and_eq_true] at h
+  obtain ⟨⟨⟨hk, hr⟩, hn⟩, hq⟩ := h
+  refine ⟨?_, pairwiseDisj_spec hr, pairwiseDisj_spec hn, ?_⟩
+  · intro r hr' n hn' hke
+    rw [List.all_eq_true] at hk
+    have := hk r hr'
+    rw [List.all_eq_true] at this
+    have := this n hn'
+    rw [hke] at this
+    simp only [Bool.not_true, Bool.false_or, Bool.and_eq_true, beq_iff_eq] at this
+    exact ⟨this.1, scopeEq_covers this.2⟩
+  · intro n hn' hrem
+    rw [List.all_eq_true] at hq
+    have := hq n hn'
+    rw [Bool.or_eq_true] at this
+    rcases this with h1 | h2
+    · rw [List.any_eq_true] at h1
+      obtain ⟨r, hr', hke⟩ := h1
+      rw [hrem r hr'] at hke
+      cases hke
+    · exact of_decide_eq_true h2
+
+/-! ### (audit) explicitly scoped rich rules are never dropped or re-scoped -/
+
+theorem updateAll_sub (chars : S → List S) (kr kn : List (Rule S V)) :
+    ∀ (l out : List (Rule S V)), updateAll chars kr kn l = .ok out →
+      ∀ r ∈ l, ∃ a, updateOne chars kr kn r = .ok a ∧ ∀ o ∈ a, o ∈ out := by
+  intro l
+  induction l with
+  | nil => intro out _ r hr; cases hr
+  | cons x xs ih =>
+    intro out h r hr
+    unfold updateAll at h
+    split at h
+    · cases h
+    · rename_i a ha
+      split at h
+      · cases h
+      · rename_i b hb
+        cases h
+        rcases List.mem_cons.mp hr with rfl | hr'
+        · exact ⟨a, ha, fun o ho => List.mem_append_left _ ho⟩
+        · obtain ⟨a', h1, h2⟩ := ih b hb r hr'
+          exact ⟨a', h1, fun o ho => List.mem_append_right _ (h2 o ho)⟩
+
+theorem updateOne_keeps_scope (chars : S → List S) (kr kn : List (Rule S V)) (r : Rule S V)
+    (es : List S) (hes : r.edges = some es) (a : List (Rule S V))
+    (ha : updateOne chars kr kn r = .ok a) : ∃ v, a = [{ r with val := v }] := by
+  unfold updateOne at ha
+  split at ha
+  · rename_i n0 _
+    cases ha
+    exact ⟨n0.val, rfl⟩
+  · split at ha
+    · rename_i hnone
+      rw [hes] at hnone
+      cases hnone
+    · dsimp only at ha
+      split at ha
+      · cases ha; exact ⟨r.val, rfl⟩
+      · rename_i m _; cases ha; exact ⟨m.val, rfl⟩
+      · cases ha
+
 end CogentModel.ScopedRules
